@@ -380,6 +380,68 @@ def random_programs(ctx, seed, docs, queries, progs, maxlen, label, extra=None):
 RICH = {"seed": 7, "docs": 6000, "bigseg": True}
 
 
+def window_walks(S, rng, n):
+    """programs over two consecutive 4096-document windows of a buffered union whose documents are S (sorted): leave the first
+    bucket, seek inside the window over at least one bucket, cross the window by advance, visit the next window at the offsets
+    of the skipped documents (score() there must be the plain-advance score).  Inputs only."""
+    import bisect
+    progs = []
+    w0 = S[0]
+    i1 = bisect.bisect_left(S, w0 + 4096)
+    for _ in range(n):
+        p = []
+        lead = rng.randrange(3)
+        if lead == 0:
+            p += [{"op": "fill_buffer"}] * rng.randint(1, 3)
+        elif lead == 1:
+            p += [{"op": "advance"}] * rng.randint(3, 70)
+        a = w0 + rng.randint(64, 1200)
+        b = min(a + rng.randint(64, 1800), w0 + 4000)
+        p += [{"op": "seek", "t": a}, {"op": "seek", "t": b}]
+        p.append({"op": "seek", "t": w0 + 4096 - rng.randint(1, 40)})
+        p += [{"op": "advance"}] * rng.randint(2, 45)
+        if i1 < len(S):
+            w1 = S[i1]
+            t = w1 + (a - w0)
+            for _ in range(rng.randint(4, 12)):
+                p.append({"op": "seek", "t": min(t, w1 + 4090)})
+                if rng.random() < 0.5:
+                    p.append({"op": "advance"})
+                t += rng.randint(1, max(2, (b - a) // 3))
+        progs.append(p)
+    return progs
+
+
+def window_family(ctx):
+    """scoring unions (also as the lead of an intersection / under reqopt, exclusion, boost) on the stripe index with 4097
+    documents per stripe, driven by window walks; judged like everything else (the scores of the plain-advance pass)"""
+    rng = random.Random(ctx.seed + 77)
+    r, u = 4097, 5
+    cases = []
+    nprog = 6 if ctx.quick else 25
+    for mask in ([31, 27, 13] if ctx.quick else [31, 27, 13, 30, 21, 7]):
+        S = [i * r + j for i in range(u) if mask >> i & 1 for j in range(r)]
+        A, Bm = mask & 0b10101, mask & 0b01110
+        unions = {
+            "win_union2": B([should(T(A)), should(T(Bm))]),
+            "win_union3": B([should(T(mask & 0b00011)), should(T(mask & 0b01110)), should(T(mask & 0b11000))]),
+            "win_dismax": {"k": "dismax", "qs": [T(A), T(Bm)], "tie": 0.3},
+            "win_boost_union": {"k": "boost", "q": B([should(T(A)), should(T(Bm))]), "b": 2.0},
+            "win_union_mixed": B([should(T(A)), should(irange(Bm, "f"))]),
+            "win_reqopt_union_must": B([must(B([should(T(A)), should(T(Bm))])), should(T(0b01101))]),
+            "win_exclude_union": B([should(T(A)), should(T(Bm)), mustnot(T(0))]),
+        }
+        for name, q in unions.items():
+            cases.append({"r": r, "u": u, "q": q, "scoring": True, "recipe": name, "abs": {"s": [i for i in range(u) if mask >> i & 1], "r": r},
+                          "progs": window_walks(S, rng, nprog)})
+    cp = ctx.path("win_cases.ndjson")
+    vlib.write_ndjson(cp, cases)
+    tp = ctx.path("win_trace.ndjson")
+    vlib.run_bin("docset_driver", ["cases", "--in", cp, "--out", tp], timeout=600, mem_gb=12)
+    n = validate(ctx, vlib.read_ndjson(tp), "win")
+    log(f"[R] window walks over scoring unions: {sum(len(c['progs']) for c in cases)} programs on {len(cases)} scorers, {n} accepted")
+
+
 def regression_cases(ctx):
     """one small case per repaired defect class (F29 BitSetDocSet sticky end, F30 Intersection count, F32 / F33 union
     seek_danger, F31 union fill_buffer scores): they must be accepted like everything else"""
@@ -484,6 +546,7 @@ def run(ctx):
             random_programs(ctx, ctx.seed + 10 + i, 4000, 400, 8, 30, f"rand{i}")
         random_programs(ctx, ctx.seed + 1, 12000, 250, 8, 60, "rand_big", ["--bigseg"])
         random_programs(ctx, ctx.seed + 2, 12000, 250, 8, 60, "rand_big2", ["--bigseg", "--depth", "3"])
+    window_family(ctx)
     regression_cases(ctx)
     binding_selftest(ctx, [e for e in ev2 if e.get("ev") == "scorer"] + [e for e in ev if e.get("ev") == "scorer"][:200])
     sc = next((e for e in ev2 if e.get("ev") == "scorer" and e["S"] and len(e["progs"][0]) > 3), None)
